@@ -155,7 +155,9 @@ def case_random(ctx, rng):
     vals = gen.Values(rng, "int", rng.choice(["float64", "float64", "complex128"]))
     r = rng.random()
     if r < 0.25:
-        x = gen.rand_array(sr, rng, sym, fermionic=True, maxnd=4, values=vals, maxd=2)
+        x = gen.rand_array(sr, rng, sym, fermionic=True, maxnd=4, values=vals, maxd=2, many_legs_p=0.06)
+        if x.ndim >= 6:
+            ctx.count("feature", "transpose-of-6-or-more-legs")
         perm = None if rng.random() < 0.1 else tuple(rng.sample(range(x.ndim), x.ndim))
         check_transpose(ctx, x, perm, "random")
         return
